@@ -38,6 +38,9 @@ def exec_signature(what: str, patterns: dict) -> str:
     if kind == "raised":
         parts = what.split(":")
         exc = parts[2] if len(parts) > 2 else "?"
+        if exc == "PartInputMismatch" and patterns.get("output_named_like_input") and " input x:" in what:
+            # the same shadowing defect, seen through the declared type of the shadowed input
+            return "exec:wrong-value:output-name-shadows-input"
         if exc == "KeyError" and patterns.get("output_named_like_input") and "'x'" in what:
             return "exec:output-released:output-name-equals-input-name"
         if exc == "AssertionError" and patterns.get("output_named_like_input") and what.endswith("AssertionError:"):
